@@ -648,6 +648,9 @@ pub fn stall_reset() {
 pub fn stall_next_write_on_this_thread() {
     TL_STALL.with(|c| c.set(true));
 }
+pub fn stall_disarm_this_thread() {
+    TL_STALL.with(|c| c.set(false));
+}
 pub fn stall_reached() -> bool {
     STALL_REACHED.load(Ordering::SeqCst)
 }
